@@ -73,6 +73,16 @@ MCSeq_fmt == SeqsUpTo({Row3(HET, HOM1, HET), Row3(HOM0, HET, HOM1), NoGtRow, Row
 CacheRows == {Row3(MISS, HET, HOM0), Row3(HET, HOM0, MISS), Row3(HOM0, HET, MISS), Row3(HET, MISS, HOM0), Row3(HET, HOM0, HOM0)}
 MCSeq_cache == SeqsUpTo(CacheRows, 3)
 ListsTwoPop == {<<E("s1", "A"), E("s10", "A"), E("s2", "B")>>, <<E("s1", "A"), E("s10", "B"), E("s2", "B")>>}
+\* sample names that look like something else to a careless parser: a leading '#' (a comment?), a name with a blank
+SH == {"s1", "#s2", "s 3"}
+RowH(x, y, z) == [gt |-> [s \in SH |-> IF s = "s1" THEN x ELSE IF s = "#s2" THEN y ELSE z], bad |-> FALSE]
+OrdersHash == {<<"s1", "#s2", "s 3">>, <<"#s2", "s 3", "s1">>}
+ListsHash == {AllMarker, <<E("s1", "A"), E("#s2", "B"), E("s 3", "A")>>, <<E("#s2", U)>>, <<E("#s2", "A"), E("s1", "A")>>,
+              <<E("s 3", "B"), E("#s2", "B"), E("s1", U)>>}
+MCSeq_names == {<<RowH(HET, HOM0, HOM0), RowH(HOM1, HET, HOM0), RowH(HOM1, MISS, HET)>>, <<RowH(HOM0, HOM1, MISS)>>}
+\* ploidy errors that carry no called allele at all (././. and the like) are errors like any other, wherever they stand
+NoAlleleFaults == {Row3(HET, HET, G3(Dot, Dot, Dot)), Row3(G3(Dot, Dot, Dot), HOM1, HET), Row3(MISS, [a |-> <<Dot, Dot, Dot, Dot>>, s |-> <<"/", "/", "/">>], HET)}
+MCSeq_fault2 == SeqsUpTo({Row3(HET, HOM1, HET), Row3(MISS, HOM1, HET)} \cup NoAlleleFaults, 2)
 MCSeq_nofault3 == SeqsUpTo(HistoryRows, 3)
 MCSeq_nofault2 == SeqsUpTo(HistoryRows, 2)
 
@@ -94,6 +104,10 @@ ListAB == {<<E("s1", U), E("s10", U)>>}
 ProbeSeqsBoth(C) ==
     {[r \in 1..2 |-> IF r = p THEN (IF col = "s1" THEN Row2(g, o) ELSE Row2(o, g)) ELSE Benign]
         : g \in C, p \in 1..2, col \in S2, o \in {MISS, MULT}}
+\* calls that refer to the second or third ALT allele in records that list only ONE ALT allele
+HighCalls == {G2(0, 2, "/"), G2(2, 2, "/"), G2(1, 2, "/"), G2(2, 1, "|"), G2(3, 3, "|"), G2(0, 3, "/"), G2(Dot, 2, "/"), G1(2), G3(0, 1, 2)}
+Row2s(x, y) == [gt |-> [s \in S2 |-> IF s = "s1" THEN x ELSE y], bad |-> FALSE, alt |-> "short"]
+MCSeq_alt == {<<Row2s(g, HOM1), Benign>> : g \in HighCalls} \cup {<<Benign, Row2s(HET, g)>> : g \in HighCalls}
 MCSeq_gt2_small == ProbeSeqsBoth(SmallCalls)
 MCSeq_gt2_all == ProbeSeqsBoth(AllCalls)
 MCSeq_gt_all == ProbeSeqs(AllCalls)
@@ -110,8 +124,11 @@ SpacedLists == {<<E("s1", "East Africa"), E("s10", "East Asia"), E("s2", "East A
 \* names that equal an input sample only after trimming blanks are ABSENT samples
 PaddedLists == {<<E("s1", "A"), E(" s2", "A")>>, <<E("s2 ", U)>>, <<E("s1", "A"), E("s10 ", "B")>>}
 \* an explicitly EMPTY label (`-s s1=`, or `s1<TAB>` in a file) names a population of its own, distinct from "no label"
+\* ... and so does a label that happens to be spelled like the way the tool prints the unnamed population
 EmptyLabelLists == {<<E("s1", ""), E("s10", U)>>, <<E("s1", U), E("s10", "")>>, <<E("s1", ""), E("s10", "B"), E("s2", U)>>,
-                    <<E("s1", ""), E("s10", "")>>, <<E("s2", U), E("s1", ""), E("s10", U)>>}
+                    <<E("s1", ""), E("s10", "")>>, <<E("s2", U), E("s1", ""), E("s10", U)>>,
+                    <<E("s1", U), E("s10", "[unnamed]"), E("s2", "[unnamed]")>>, <<E("s1", "[unnamed]"), E("s10", U)>>,
+                    <<E("s1", "unnamed"), E("s10", U), E("s2", "Unnamed")>>}
 MCLists_perm == ListsOver(S3) \cup SpacedLists \cup PaddedLists \cup EmptyLabelLists \cup {AllMarker, <<>>, <<E("s1", "A"), E("z", "A")>>, <<E("z", U)>>}
 MCLists_perm_quick == {l \in ListsOver(S3) : Len(l) >= 2 /\ l[1].s # "s2"} \cup SpacedLists \cup PaddedLists \cup EmptyLabelLists \cup {AllMarker, <<>>, <<E("s1", "A"), E("z", "A")>>}
 \* three asymmetric records so that every permutation is visible in the result
